@@ -205,6 +205,13 @@ def rand_unitary(rng, n, kind):
     return U
 
 
+WEAK_K = [2, 3, 5, 6]
+# Reconstruction tolerance for the weak-pairing family.  There the left block has smallest singular value ~ s = 2e-k and
+# the code (legitimately) drops quantities below EQ_TOLERANCE, here the first power of s below 1e-8; that truncation is
+# amplified by ~ 1/s: deviations up to 3.7e-6 were measured on the unmodified code (bound ~ 10 * s^j / s <= 2e-4).  A skipped
+# particle-hole transformation instead leaves exact zeros in the diagonal (deviation 1).
+WEAK_TOL = 1e-3
+
 KINDS = ['perm', 'realperm', 'identity', 'antidiag', 'block', 'realblock', 'dense', 'realdense', 'mixed', 'realmixed']
 
 
@@ -312,7 +319,7 @@ def oracle_givens(of, Qnp, ai):
     return bad, (dec, V, diag), req
 
 
-def oracle_gauss(of, Wnp):
+def oracle_gauss(of, Wnp, tol=TOL):
     n = Wnp.shape[0]
     dec, left_dec, diag, left_diag = of.linalg.fermionic_gaussian_decomposition(Wnp.copy())
     U = np_U_gauss(n, dec)
@@ -324,11 +331,11 @@ def oracle_gauss(of, Wnp):
     e2 = err(np.abs(diag) - 1)
     e3 = err(np.abs(left_diag) - 1)
     e1 = err(V @ Wnp @ U.conj().T - target)
-    if e2 > TOL:
+    if e2 > tol:
         bad = 'diagonal not of unit modulus (%.3g)' % e2
-    elif e3 > TOL:
+    elif e3 > tol:
         bad = 'left diagonal not of unit modulus (%.3g)' % e3
-    elif e1 > TOL:
+    elif e1 > tol:
         bad = 'V W U^dagger != (0 | D) (max deviation %.3g)' % e1
     reqs = [{'op': 'c11.spec.layers', 'n': n, 'depth': 2 * n - 1, 'layers': layer_indices(dec, n)},
             {'op': 'c11.spec.layers', 'n': n, 'depth': max(2 * (n - 1) - 1, 0), 'layers': layer_indices(left_dec, n)}]
@@ -466,7 +473,7 @@ def check_cases(ctx, stream, cases):
                 bad, val, rq = oracle_givens(of, Mnp, c['ai'])
                 specs = [rq]
             else:
-                bad, val, specs = oracle_gauss(of, Mnp)
+                bad, val, specs = oracle_gauss(of, Mnp, WEAK_TOL if c['kind'] == 'weak' else TOL)
             impl_err = None
         except ValueError:
             impl_err = 'ValueError'
@@ -591,6 +598,28 @@ def gen_gauss_exact(rng, n, kind):
         for r in range(n):
             W[r][rng.choice([0, n]) + p[r]] = rng.choice(PHASES)
         return W
+    if kind == 'weak':
+        # weak pairing: orbital rotation, optionally hole modes, then pairing rotations a_i / a_q^dagger of angle
+        # ~ 2 * 10^-k (exact rational rotation with t = tan(theta/2) = 10^-k), k in WEAK_K: the particle-hole pivots of
+        # the decomposition are small but more than a decade above EQ_TOLERANCE (k = 7, 8 would be within a decade of it)
+        for _ in range(rng.randint(0, 3)):
+            i, j = rng.sample(range(n), 2)
+            c, s = rng.choice(CS_DENSE if rng.random() < 0.7 else CS_TRIV)
+            U = zmul(dbl(i, j, c, s, rng.choice(PHASES)), U)
+        for q in range(n):
+            if rng.random() < 0.3:
+                U = zmul(pht(q), U)
+        # exactly ONE pairing rotation: then every quantity the code compares with EQ_TOLERANCE is of order 0 or 1 in s
+        # (>= 1e-7) or exactly zero.  (Two weak pairing rotations create second-order entries s1*s2 <= 4e-10 which the
+        # code legitimately treats as zero; with a nearly singular left block that truncation is amplified to 1e-6..1e-5
+        # in V W U^dagger - observed on the unmodified code, outside the exact regime, therefore not generated.)
+        i, q = rng.sample(range(n), 2)
+        t = F(1, 10 ** rng.choice(WEAK_K))
+        c, s = (1 - t * t) / (1 + t * t), 2 * t / (1 + t * t)
+        if rng.random() < 0.5:
+            s = -s
+        U = zmul(zmul(pht(q), zmul(dbl(i, q, c, s, rng.choice(PHASES)), pht(q))), U)
+        return U[n:] if rng.random() < 0.5 else U[:n]
     steps = rng.randint(0, 6)
     for _ in range(steps):
         if rng.random() < 0.4 or n < 2:
@@ -797,8 +826,16 @@ def stream_structured(ctx):
     cases.append({'fn': 'givens', 'M': [[ONE], [ONE]], 'ncols': 1, 'ai': False, 'kind': 'm>n', 'admissible': False})
     for _ in range(nga):
         n = rng.choice([1, 2, 2, 3, 3, 3, 4, 4])
-        kind = rng.choice(['bcs', 'permlike', 'group', 'group', 'realgroup'])
+        kind = rng.choice(['bcs', 'permlike', 'group', 'group', 'realgroup', 'weak', 'weak'])
+        if kind == 'weak' and n < 2:
+            n = rng.choice([2, 3, 4])
         W = gen_gauss_exact(rng, n, kind)
+        if kind == 'weak':
+            # weak-pairing inputs must lie OUTSIDE the F11 class: the left block is nearly, but not exactly, singular
+            for _try in range(30):
+                if zrank([r[:n] for r in W]) == n:
+                    break
+                W = gen_gauss_exact(rng, n, kind)
         cases.append({'fn': 'gauss', 'M': W, 'ncols': 2 * n, 'ai': False, 'kind': kind,
                       'singular': zrank([r[:n] for r in W]) < n})
     # inadmissible inputs: error kind only
@@ -863,7 +900,7 @@ def replay(ctx, payload):
         elif inp['fn'] == 'givens':
             bad, _, _ = oracle_givens(ctx.of, M, inp.get('always_insert', False))
         else:
-            bad, _, _ = oracle_gauss(ctx.of, M)
+            bad, _, _ = oracle_gauss(ctx.of, M, WEAK_TOL if inp.get('kind') == 'weak' else TOL)
     except Exception:
         return False
     return bad is None
